@@ -103,6 +103,7 @@ func (ex *Exec) havocAll(st *State, why string) {
 	n := ex.vc.fresh("alloc", SInt)
 	ex.vc.assume(st.guard, Ge(n, old))
 	st.ghost["alloc"] = n
+	ex.epochAlloc[st.epoch] = n
 	ex.vc.note("opaque call havocs all heaps: %s", why)
 	if ex.wroteAll == "" {
 		ex.wroteAll = why
